@@ -121,4 +121,211 @@ theorem pattern_fields (n : Nat) (hn : 0 < n) (neg : Bool) (G T N : Nat) (hG : G
   rw [hk, hk1]
   exact h
 
+/-! ## the decoder inverts the encoder; every pattern decodes inside the format -/
+
+theorem pow_t (n : Nat) (hn : 0 < n) : 2 ^ (Fmt.mk n).t = 1024 ^ (Fmt.mk n).declets := by
+  rw [fmt_t n hn, pow1024]
+
+theorem ten_pow_p (n : Nat) (hn : 0 < n) : 10 ^ (Fmt.mk n).p = 10 * 1000 ^ (Fmt.mk n).declets := by
+  rw [fmt_p n hn, Nat.pow_succ, pow1000, Nat.mul_comm]
+
+theorem w_pos (n : Nat) : (Fmt.mk n).w = ((Fmt.mk n).w - 1) + 1 := by simp only [Fmt.w]; omega
+
+/-- decoding the five leading combination bits built by the encoder -/
+theorem g5_roundtrip (etop msd : Nat) (he : etop ≤ 2) (hm : msd < 10) :
+    let g5 := if msd < 8 then etop * 8 + msd else 24 + etop * 2 + (msd - 8)
+    g5 < 30 ∧ (if g5 / 8 < 3 then (g5 / 8, g5 % 8) else (g5 / 2 % 4, 8 + g5 % 2)) = (etop, msd) := by
+  intro g5
+  have : ∀ e ≤ 2, ∀ m < 10,
+      (if m < 8 then e * 8 + m else 24 + e * 2 + (m - 8)) < 30 ∧
+      (if (if m < 8 then e * 8 + m else 24 + e * 2 + (m - 8)) / 8 < 3
+        then ((if m < 8 then e * 8 + m else 24 + e * 2 + (m - 8)) / 8, (if m < 8 then e * 8 + m else 24 + e * 2 + (m - 8)) % 8)
+        else ((if m < 8 then e * 8 + m else 24 + e * 2 + (m - 8)) / 2 % 4, 8 + (if m < 8 then e * 8 + m else 24 + e * 2 + (m - 8)) % 2)) = (e, m) := by
+    decide
+  exact this etop he msd hm
+
+/-- **Spec round trip (finite).** Decoding the canonical encoding of `(s, c, e)` gives `(s, c, e)` back,
+    for every width, every coefficient below `10^p` and every exponent of the format. -/
+theorem decode_encodeFin (n : Nat) (hn : 0 < n) (neg : Bool) (c : Nat) (e : Int)
+    (hc : c < 10 ^ (Fmt.mk n).p) (he : (Fmt.mk n).qmin ≤ e ∧ e ≤ (Fmt.mk n).qmax) :
+    decode ⟨n⟩ (encodeFin ⟨n⟩ neg c e) = .fin neg c e ∧ encodeFin ⟨n⟩ neg c e < 2 ^ (32 * n) := by
+  have hlim := elimit_eq n hn
+  have hE0 : 0 ≤ e + (Fmt.mk n).bias := by simp only [Fmt.qmin] at he; omega
+  generalize hEdef : (e + (Fmt.mk n).bias).toNat = E
+  have hEe : (E : Int) = e + (Fmt.mk n).bias := by rw [← hEdef]; omega
+  have hElt : E < 3 * 2 ^ (Fmt.mk n).w := by
+    have : ((Fmt.mk n).elimit : Int) = ((3 * 2 ^ (Fmt.mk n).w : Nat) : Int) := rfl
+    have h2 : (E : Int) < ((3 * 2 ^ (Fmt.mk n).w : Nat) : Int) := by rw [← this, hlim]; omega
+    exact_mod_cast h2
+  have hw : 0 < 2 ^ (Fmt.mk n).w := Nat.two_pow_pos _
+  have hetop : E / 2 ^ (Fmt.mk n).w ≤ 2 := by
+    have : E / 2 ^ (Fmt.mk n).w < 3 := by rw [Nat.div_lt_iff_lt_mul hw]; omega
+    omega
+  have hp10 := ten_pow_p n hn
+  have hd : 0 < 1000 ^ (Fmt.mk n).declets := Nat.pow_pos (by decide)
+  have hmsd : c / 1000 ^ (Fmt.mk n).declets < 10 := by rw [Nat.div_lt_iff_lt_mul hd]; omega
+  obtain ⟨hg5lt, hg5⟩ := g5_roundtrip (E / 2 ^ (Fmt.mk n).w) (c / 1000 ^ (Fmt.mk n).declets) hetop hmsd
+  generalize hg5def : (if c / 1000 ^ (Fmt.mk n).declets < 8 then E / 2 ^ (Fmt.mk n).w * 8 + c / 1000 ^ (Fmt.mk n).declets
+      else 24 + E / 2 ^ (Fmt.mk n).w * 2 + (c / 1000 ^ (Fmt.mk n).declets - 8)) = g5 at hg5lt hg5
+  have hTlt : trailingEncode (Fmt.mk n).declets (c % 1000 ^ (Fmt.mk n).declets) < 2 ^ (Fmt.mk n).t := by
+    rw [pow_t n hn]; exact trailingEncode_lt _ _
+  have hGsplit := field_split g5 (Fmt.mk n).w (E % 2 ^ (Fmt.mk n).w) (Nat.mod_lt _ hw)
+  have hGlt : g5 * 2 ^ (Fmt.mk n).w + E % 2 ^ (Fmt.mk n).w < 2 ^ ((Fmt.mk n).w + 5) := by
+    have := Nat.mod_lt E hw
+    rw [Nat.pow_add]
+    calc g5 * 2 ^ (Fmt.mk n).w + E % 2 ^ (Fmt.mk n).w < g5 * 2 ^ (Fmt.mk n).w + 2 ^ (Fmt.mk n).w := by omega
+      _ = (g5 + 1) * 2 ^ (Fmt.mk n).w := by rw [Nat.add_mul, Nat.one_mul]
+      _ ≤ 32 * 2 ^ (Fmt.mk n).w := Nat.mul_le_mul_right _ (by omega)
+      _ = 2 ^ (Fmt.mk n).w * 2 ^ 5 := by rw [Nat.mul_comm]
+  have hN : encodeFin ⟨n⟩ neg c e = signBit ⟨n⟩ neg + (g5 * 2 ^ (Fmt.mk n).w + E % 2 ^ (Fmt.mk n).w) * 2 ^ (Fmt.mk n).t
+      + trailingEncode (Fmt.mk n).declets (c % 1000 ^ (Fmt.mk n).declets) := by
+    simp only [encodeFin, hEdef, hg5def]
+  obtain ⟨f1, f2, f3, f4⟩ := pattern_fields n hn neg _ _ _ hGlt hTlt hN
+  refine ⟨?_, by simpa [Fmt.k] using f4⟩
+  unfold decode
+  simp only [f1, f2, f3, hGsplit.1, hGsplit.2]
+  have h30 : g5 ≠ 30 := by omega
+  have h31 : g5 ≠ 31 := by omega
+  simp only [h30, h31, if_false]
+  rw [trailing_roundtrip, Nat.mod_mod, hg5]
+  have h1 : c / 1000 ^ (Fmt.mk n).declets * 1000 ^ (Fmt.mk n).declets + c % 1000 ^ (Fmt.mk n).declets = c :=
+    Nat.div_add_mod' c _
+  have h2 : E / 2 ^ (Fmt.mk n).w * 2 ^ (Fmt.mk n).w + E % 2 ^ (Fmt.mk n).w = E := Nat.div_add_mod' E _
+  simp only [h1, h2, hEe]
+  congr 1
+  · cases neg <;> simp
+  · omega
+
+/-- exponent top bits and most significant digit from the five leading combination bits -/
+def decodePair (g5 : Nat) : Nat × Nat := if g5 / 8 < 3 then (g5 / 8, g5 % 8) else (g5 / 2 % 4, 8 + g5 % 2)
+
+/-- `Spec.decode` with the pattern match written as projections -/
+theorem decode_eq (f : Fmt) (N : Nat) :
+    decode f N =
+      if N / 2 ^ f.t % 2 ^ (f.w + 5) / 2 ^ f.w = 30 then .inf (decide (N / 2 ^ (f.k - 1) % 2 = 1))
+      else if N / 2 ^ f.t % 2 ^ (f.w + 5) / 2 ^ f.w = 31 then
+        .nan (decide (N / 2 ^ (f.k - 1) % 2 = 1)) (decide (N / 2 ^ f.t % 2 ^ (f.w + 5) / 2 ^ (f.w - 1) % 2 = 1))
+          (trailingDecode f.declets (N % 2 ^ f.t))
+      else .fin (decide (N / 2 ^ (f.k - 1) % 2 = 1))
+        ((decodePair (N / 2 ^ f.t % 2 ^ (f.w + 5) / 2 ^ f.w)).2 * 1000 ^ f.declets + trailingDecode f.declets (N % 2 ^ f.t))
+        (((decodePair (N / 2 ^ f.t % 2 ^ (f.w + 5) / 2 ^ f.w)).1 * 2 ^ f.w + N / 2 ^ f.t % 2 ^ (f.w + 5) % 2 ^ f.w : Nat) - f.bias) := by
+  unfold decode decodePair
+  simp only
+
+theorem decodePair_bounds : ∀ g < 32, g ≠ 30 → g ≠ 31 → (decodePair g).1 ≤ 2 ∧ (decodePair g).2 ≤ 9 := by
+  decide
+
+/-- **Every pattern decodes inside the format**: a finite datum has a coefficient below `10^p` and an exponent in
+    `[qmin, qmax]`, canonical or not (non-canonical declets, large-digit combination). -/
+theorem decode_fin_bounds (n : Nat) (hn : 0 < n) (N : Nat) (s : Bool) (c : Nat) (e : Int)
+    (h : decode ⟨n⟩ N = .fin s c e) :
+    c < 10 ^ (Fmt.mk n).p ∧ (Fmt.mk n).qmin ≤ e ∧ e ≤ (Fmt.mk n).qmax := by
+  have hlim := elimit_eq n hn
+  have hp10 := ten_pow_p n hn
+  rw [decode_eq] at h
+  have hGlt : N / 2 ^ (Fmt.mk n).t % 2 ^ ((Fmt.mk n).w + 5) < 2 ^ ((Fmt.mk n).w + 5) := Nat.mod_lt _ (Nat.two_pow_pos _)
+  generalize N / 2 ^ (Fmt.mk n).t % 2 ^ ((Fmt.mk n).w + 5) = G at h hGlt
+  have hT := trailingDecode_lt (Fmt.mk n).declets (N % 2 ^ (Fmt.mk n).t)
+  generalize trailingDecode (Fmt.mk n).declets (N % 2 ^ (Fmt.mk n).t) = TT at h hT
+  have hw : 0 < 2 ^ (Fmt.mk n).w := Nat.two_pow_pos _
+  have hg5 : G / 2 ^ (Fmt.mk n).w < 32 := by
+    rw [Nat.div_lt_iff_lt_mul hw, Nat.mul_comm]; rw [Nat.pow_add] at hGlt; exact hGlt
+  have hlow : G % 2 ^ (Fmt.mk n).w < 2 ^ (Fmt.mk n).w := Nat.mod_lt _ hw
+  generalize G % 2 ^ (Fmt.mk n).w = lo at h hlow
+  generalize G / 2 ^ (Fmt.mk n).w = g5 at h hg5
+  have hel : ((Fmt.mk n).elimit : Int) = ((3 * 2 ^ (Fmt.mk n).w : Nat) : Int) := rfl
+  generalize 2 ^ (Fmt.mk n).w = W at *
+  generalize 1000 ^ (Fmt.mk n).declets = X at *
+  split at h
+  · cases h
+  · split at h
+    · cases h
+    · rename_i h30 h31
+      obtain ⟨k1, k2⟩ := decodePair_bounds g5 hg5 h30 h31
+      generalize (decodePair g5).1 = etop at h k1
+      generalize (decodePair g5).2 = msd at h k2
+      injection h with _ hc he
+      subst hc he
+      have m1 : msd * X ≤ 9 * X := Nat.mul_le_mul_right _ k2
+      have m2 : etop * W ≤ 2 * W := Nat.mul_le_mul_right _ k1
+      refine ⟨by omega, by simp only [Fmt.qmin]; omega, ?_⟩
+      have h2 : ((etop * W + lo : Nat) : Int) < ((3 * W : Nat) : Int) := by
+        exact_mod_cast (by omega : etop * W + lo < 3 * W)
+      rw [← hel, hlim] at h2
+      omega
+
+theorem decode_nan_payload_lt (n : Nat) (N : Nat) (s g : Bool) (p : Nat) (h : decode ⟨n⟩ N = .nan s g p) :
+    p < 1000 ^ (Fmt.mk n).declets := by
+  rw [decode_eq] at h
+  split at h
+  · cases h
+  · split at h
+    · injection h with _ _ hp; rw [← hp]; exact trailingDecode_lt _ _
+    · cases h
+
+/-- **Spec round trip (infinity).** -/
+theorem decode_encodeInf (n : Nat) (hn : 0 < n) (neg : Bool) :
+    decode ⟨n⟩ (encodeInf ⟨n⟩ neg) = .inf neg ∧ encodeInf ⟨n⟩ neg < 2 ^ (32 * n) := by
+  have hw : 0 < 2 ^ (Fmt.mk n).w := Nat.two_pow_pos _
+  have hGlt : 30 * 2 ^ (Fmt.mk n).w < 2 ^ ((Fmt.mk n).w + 5) := by rw [Nat.pow_add]; omega
+  have hN : encodeInf ⟨n⟩ neg = signBit ⟨n⟩ neg + (30 * 2 ^ (Fmt.mk n).w) * 2 ^ (Fmt.mk n).t + 0 := rfl
+  obtain ⟨f1, f2, f3, f4⟩ := pattern_fields n hn neg _ _ _ hGlt (Nat.two_pow_pos _) hN
+  refine ⟨?_, by simpa [Fmt.k] using f4⟩
+  unfold decode
+  simp only [f1, f2, f3]
+  have : 30 * 2 ^ (Fmt.mk n).w / 2 ^ (Fmt.mk n).w = 30 := Nat.mul_div_cancel _ hw
+  simp only [this, if_true]
+  cases neg <;> simp
+
+/-- **Spec round trip (NaN).** sign, signaling bit and any payload that fits the trailing significand -/
+theorem decode_encodeNan (n : Nat) (hn : 0 < n) (neg sig : Bool) (payload : Nat) (hp : payload < 1000 ^ (Fmt.mk n).declets) :
+    decode ⟨n⟩ (encodeNan ⟨n⟩ neg sig payload) = .nan neg sig payload ∧ encodeNan ⟨n⟩ neg sig payload < 2 ^ (32 * n) := by
+  have hw1 := w_pos n
+  have hw : 0 < 2 ^ ((Fmt.mk n).w - 1) := Nat.two_pow_pos _
+  have hpw : 2 ^ (Fmt.mk n).w = 2 * 2 ^ ((Fmt.mk n).w - 1) := by
+    conv => lhs; rw [hw1, Nat.pow_succ, Nat.mul_comm]
+  have hb : (62 + if sig then 1 else 0) ≤ 63 := by cases sig <;> simp
+  have hGlt : (62 + if sig then 1 else 0) * 2 ^ ((Fmt.mk n).w - 1) < 2 ^ ((Fmt.mk n).w + 5) := by
+    rw [Nat.pow_add, hpw]
+    have := Nat.mul_le_mul_right (2 ^ ((Fmt.mk n).w - 1)) hb
+    omega
+  have hTlt : trailingEncode (Fmt.mk n).declets payload < 2 ^ (Fmt.mk n).t := by
+    rw [pow_t n hn]; exact trailingEncode_lt _ _
+  have hN : encodeNan ⟨n⟩ neg sig payload = signBit ⟨n⟩ neg + ((62 + if sig then 1 else 0) * 2 ^ ((Fmt.mk n).w - 1)) * 2 ^ (Fmt.mk n).t
+      + trailingEncode (Fmt.mk n).declets payload := rfl
+  obtain ⟨f1, f2, f3, f4⟩ := pattern_fields n hn neg _ _ _ hGlt hTlt hN
+  refine ⟨?_, by simpa [Fmt.k] using f4⟩
+  unfold decode
+  simp only [f1, f2, f3]
+  have hg5 : (62 + if sig then 1 else 0) * 2 ^ ((Fmt.mk n).w - 1) / 2 ^ (Fmt.mk n).w = 31 := by
+    rw [hpw, Nat.mul_comm 2, ← Nat.div_div_eq_div_mul, Nat.mul_div_cancel _ hw]
+    cases sig <;> simp
+  have hsg : (62 + if sig then 1 else 0) * 2 ^ ((Fmt.mk n).w - 1) / 2 ^ ((Fmt.mk n).w - 1) % 2 = (if sig then 1 else 0) := by
+    rw [Nat.mul_div_cancel _ hw]; cases sig <;> simp
+  simp only [hg5, hsg, trailing_roundtrip, Nat.mod_eq_of_lt hp]
+  cases neg <;> cases sig <;> simp
+
+/-- decoding is unchanged by canonicalisation, and canonicalisation is idempotent -/
+theorem decode_canon (n : Nat) (hn : 0 < n) (N : Nat) : decode ⟨n⟩ (canon ⟨n⟩ N) = decode ⟨n⟩ N := by
+  unfold canon
+  cases h : decode ⟨n⟩ N with
+  | fin s c e =>
+    obtain ⟨h1, h2, h3⟩ := decode_fin_bounds n hn N s c e h
+    exact (decode_encodeFin n hn s c e h1 ⟨h2, h3⟩).1
+  | inf s => exact (decode_encodeInf n hn s).1
+  | nan s g p => exact (decode_encodeNan n hn s g p (decode_nan_payload_lt n N s g p h)).1
+
+theorem canon_idem (n : Nat) (hn : 0 < n) (N : Nat) : canon ⟨n⟩ (canon ⟨n⟩ N) = canon ⟨n⟩ N := by
+  show encode ⟨n⟩ (decode ⟨n⟩ (canon ⟨n⟩ N)) = encode ⟨n⟩ (decode ⟨n⟩ N)
+  rw [decode_canon n hn N]
+
+theorem canon_lt (n : Nat) (hn : 0 < n) (N : Nat) : canon ⟨n⟩ N < 2 ^ (32 * n) := by
+  unfold canon
+  cases h : decode ⟨n⟩ N with
+  | fin s c e =>
+    obtain ⟨h1, h2, h3⟩ := decode_fin_bounds n hn N s c e h
+    exact (decode_encodeFin n hn s c e h1 ⟨h2, h3⟩).2
+  | inf s => exact (decode_encodeInf n hn s).2
+  | nan s g p => exact (decode_encodeNan n hn s g p (decode_nan_payload_lt n N s g p h)).2
+
 end Decstr.Proofs
